@@ -12,6 +12,7 @@ mod jsonleg;
 mod prng;
 mod serleg;
 mod simformat;
+mod tomlleg;
 mod values;
 
 use common::*;
@@ -34,9 +35,10 @@ pub enum Case {
     De(deleg::DeCase),
     JsonWrite(jsonleg::JsonWriteCase),
     JsonRead(jsonleg::JsonReadCase),
+    Toml(tomlleg::TomlCase),
 }
 
-pub const LEG_NAMES: [&str; 5] = ["Fmt", "Ser", "De", "JsonWrite", "JsonRead"];
+pub const LEG_NAMES: [&str; 6] = ["Fmt", "Ser", "De", "JsonWrite", "JsonRead", "Toml"];
 
 impl Case {
     pub fn leg(&self) -> usize {
@@ -46,6 +48,7 @@ impl Case {
             Case::De(_) => 2,
             Case::JsonWrite(_) => 3,
             Case::JsonRead(_) => 4,
+            Case::Toml(_) => 5,
         }
     }
     pub fn execute(&self) -> LegReport {
@@ -55,6 +58,7 @@ impl Case {
             Case::De(c) => deleg::execute(c),
             Case::JsonWrite(c) => jsonleg::execute_write(c),
             Case::JsonRead(c) => jsonleg::execute_read(c),
+            Case::Toml(c) => tomlleg::execute(c),
         }
     }
     pub fn shrink(&self) -> Vec<Case> {
@@ -64,6 +68,7 @@ impl Case {
             Case::De(c) => deleg::shrink(c).into_iter().map(Case::De).collect(),
             Case::JsonWrite(c) => jsonleg::shrink_write(c).into_iter().map(Case::JsonWrite).collect(),
             Case::JsonRead(c) => jsonleg::shrink_read(c).into_iter().map(Case::JsonRead).collect(),
+            Case::Toml(c) => tomlleg::shrink(c).into_iter().map(Case::Toml).collect(),
         }
     }
 }
@@ -80,6 +85,7 @@ pub fn generate_run(base: u64, index: u64, st: &mut values::GenStats) -> (values
         Case::De(deleg::generate(&mut r, v.hi, v.lo, other)),
         Case::JsonWrite(jsonleg::generate_write(&mut r, v.hi, v.lo)),
         Case::JsonRead(jsonleg::generate_read(&mut r, v.hi, v.lo, other)),
+        Case::Toml(tomlleg::generate(&mut r, v.hi, v.lo, other)),
     ];
     (v, cases)
 }
@@ -315,8 +321,14 @@ fn minimise(case: &Case, class: &str) -> (Case, u32) {
     let mut cur = case.clone();
     let mut steps = 0u32;
     let mut execs = 0u32;
+    // never revisit a case: shrink candidates are "simpler" only informally
+    let mut seen: BTreeSet<String> = BTreeSet::new();
+    seen.insert(serde_json::to_string(&cur).unwrap_or_default());
     'outer: loop {
         for cand in cur.shrink() {
+            if !seen.insert(serde_json::to_string(&cand).unwrap_or_default()) {
+                continue;
+            }
             execs += 1;
             if execs > 5000 {
                 break 'outer;
@@ -336,6 +348,7 @@ fn informational(case: &Case) -> (Option<serde_json::Value>, Option<String>) {
     match case {
         Case::De(c) => (serde_json::to_value(deleg::derive_stream(c)).ok(), None),
         Case::JsonRead(c) => (None, Some(String::from_utf8_lossy(&jsonleg::derive_bytes(c)).into_owned())),
+        Case::Toml(c) => (None, Some(String::from_utf8_lossy(&jsonleg::apply_byte_faults(c.base.as_bytes(), &c.faults)).into_owned())),
         _ => (None, None),
     }
 }
@@ -414,6 +427,21 @@ const REQUIRED_PROBES: &[&str] = &[
     "json_host_vec",
     "json_host_btreemap",
     "json_host_tuple",
+    "json_host_stream",
+    "rt_serde_value_deserializers_ok",
+    "toml_rt_ok",
+    "toml_accept_valid",
+    "toml_reject_overlap",
+    "toml_reject_nonfinite",
+    "toml_reject_duplicate",
+    "toml_reject_missing",
+    "toml_reject_unknown",
+    "toml_host_flatten",
+    "toml_host_nested",
+    "toml_host_array",
+    "fmt_io_error_propagated",
+    "fmt_io_benign_faults_transparent",
+    "de_format_binary",
     "de_reject_duplicate_hi",
     "de_reject_duplicate_lo",
     "de_reject_missing_hi",
@@ -490,6 +518,15 @@ const REQUIRED_FAULTS: &[&str] = &[
     "reader_hard_error",
     "reader_early_eof",
     "reader_short_reads",
+    "fmt_io_hard_error",
+    "fmt_io_interrupted",
+    "fmt_io_short_write",
+    "fmt_io_zero_length_write",
+    "toml_bytes_truncate",
+    "toml_bytes_bit_flip",
+    "toml_bytes_dup_span",
+    "toml_bytes_swap_spans",
+    "toml_bytes_overwrite",
 ];
 
 #[allow(clippy::too_many_arguments)]
@@ -558,11 +595,15 @@ fn write_evidence(
                     "twofloat (built from /repo's working tree): Display/LowerExp/UpperExp, Serialize, Deserialize with its Field and visitor, TryFrom<(f64,f64)>, no_overlap; arithmetic/maths API for workload generation only",
                     "core::fmt Formatter and f64 rendering",
                     "serde trait machinery and primitive f64 impls",
-                    "serde_json reader/writer (float_roundtrip), Value serializer/deserializer"
+                    "serde_json reader/writer (float_roundtrip), Value serializer/deserializer, StreamDeserializer",
+                    "serde's own buffering deserializers reached through host structures: #[serde(flatten)] (FlatMapDeserializer), internally tagged and untagged enums (Content), Option, Vec, BTreeMap, tuple",
+                    "serde::de::value::{MapDeserializer, SeqDeserializer}",
+                    "toml 1.1 serializer and parser (second real format; carries inf / nan / -0.0)",
+                    "std io::Write::write_fmt adapter (formatting into an io::Write)"
                 ],
                 "simulated": [
                     "SimSink (fmt::Write)", "SimSerializer / SimDeserializer (SimFormat) and the stored record",
-                    "SimReader (io::Read)", "SimWriter (io::Write)", "stored JSON bytes"
+                    "SimReader (io::Read)", "SimWriter (io::Write; also as the target of write! for formatting)", "stored JSON bytes", "stored TOML text"
                 ],
                 "oracles": [
                     "hand-written sequential model of struct decoding + reference predicate hi + lo == hi",
